@@ -97,6 +97,12 @@ macro_rules! check_closed {
             v
         };
         let known = |pts: &[(i32, i32)]| !pts.is_empty() && pts.iter().all(|k| not_nested.contains(k));
+        // `draw()` and `pixels()` follow the same areas, so they agree with each other — checked first and on its
+        // own, because a disagreement between the two is never the known finding F-26 (which is about the areas),
+        // also where it falls on points whose areas are not nested (the reverted fix F-25 does exactly that)
+        if let Some(d) = diff_maps("draw()", &native.0.map, "pixels()", &it.0.map) {
+            return fail(format!("{}:pixels_vs_draw", kind), d);
+        }
         if let Some(d) = diff_maps("expected(fill_area/stroke_area)", &exp, "draw()", &native.0.map) {
             if known(&differing(&native.0.map)) {
                 return fail("rounded_rectangle:areas_not_nested", format!("fill_area() / the shape / stroke_area() are not nested at {} point(s), e.g. {:?}, and draw() differs from the areas only there: {}", not_nested.len(), not_nested.iter().next(), d));
